@@ -283,6 +283,8 @@ def policyTab : List (Nm × Disc) := [
   (nm!"server.onQuit", .initOnly nms!["newServer"]),
   (nm!"server.operator", .initOnly nms!["server.Run"]),
   (nm!"server.connections", .syncObj []),           -- sync.Map
+  -- netpoll_server.go: accepts in flight, sync/atomic only (server.accept: AddInt32 +1/-1; server.Close: LoadInt32)
+  (nm!"server.accepting", .atomicOnly []),
   (nm!"eventLoop.Mutex", .syncObj []),
   (nm!"eventLoop.opts", .initOnly nms!["NewEventLoop"]),
   (nm!"eventLoop.stop", .syncObj nms!["NewEventLoop"]),
